@@ -540,26 +540,48 @@ func inheritedMapException(p *Program, s *mapSite) (mapException, bool) {
 		if len(parts) != 2 || parts[1] != s.stableExpr() || !strings.HasPrefix(parts[0], pkgPrefix) || parts[0] == s.fn {
 			continue
 		}
-		// does the excepted function call the helper?
+		// does the excepted function call the helper (directly or through other pieces split
+		// out of it)?
 		owner := parts[0][strings.LastIndex(parts[0], ".")+1:]
-		calls := false
-		for _, file := range s.pkg.Syntax {
-			for _, d := range file.Decls {
-				fd, ok := d.(*ast.FuncDecl)
-				if !ok || fd.Name.Name != owner || fd.Body == nil {
-					continue
-				}
-				ast.Inspect(fd.Body, func(n ast.Node) bool {
-					if call, ok := n.(*ast.CallExpr); ok {
-						name := exprStr(p.Fset, call.Fun)
-						if name == helper || strings.HasSuffix(name, "."+helper) {
-							calls = true
-						}
+		calleesOf := func(fn string) []string {
+			var out []string
+			for _, file := range s.pkg.Syntax {
+				for _, d := range file.Decls {
+					fd, ok := d.(*ast.FuncDecl)
+					if !ok || fd.Name.Name != fn || fd.Body == nil {
+						continue
 					}
-					return true
-				})
+					ast.Inspect(fd.Body, func(n ast.Node) bool {
+						if call, ok := n.(*ast.CallExpr); ok {
+							name := exprStr(p.Fset, call.Fun)
+							if i := strings.LastIndex(name, "."); i >= 0 {
+								name = name[i+1:]
+							}
+							out = append(out, name)
+						}
+						return true
+					})
+				}
+			}
+			return out
+		}
+		calls := false
+		seenFn := map[string]bool{}
+		var walk func(fn string, depth int)
+		walk = func(fn string, depth int) {
+			if seenFn[fn] || depth > 3 || calls {
+				return
+			}
+			seenFn[fn] = true
+			for _, cal := range calleesOf(fn) {
+				if cal == helper {
+					calls = true
+					return
+				}
+				walk(cal, depth+1)
 			}
 		}
+		walk(owner, 0)
 		if calls {
 			ex.why += " [loop now in helper " + s.fn + "]"
 			return ex, true
